@@ -111,6 +111,8 @@ func ImportDriver(spec string) [][]Action {
 		return drvHistory(r, count, false)
 	case "cgo":
 		return drvCgo(r, count)
+	case "filecomments":
+		return drvFileComments(r, count)
 	}
 	fatal("unknown import driver " + name)
 	return nil
@@ -483,6 +485,35 @@ func drvCgo(r *rand.Rand, n int) [][]Action {
 		if r.Intn(4) == 0 {
 			h = append(h, Action{A: "Render"})
 		}
+		out = append(out, h)
+	}
+	return out
+}
+
+// header / package comment lists of length 0-3 over text classes, canonical paths incl. quotes and backslashes
+func drvFileComments(r *rand.Rand, n int) [][]Action {
+	texts := []string{"Code generated by x. DO NOT EDIT.", "Package main does things.", "two\nlines", "ends with newline\n", "has } braces {", "x := 1 // nested",
+		"unicode é 日本", "  indented", "Copyright 2024", "a \"quoted\" word", "//raw line comment", "/* raw block */", "#hash"}
+	canons := []string{"", "", "example.com/canon", "a/b-c.d/e", "with \"quote\"", "back\\slash", "ünï/cødé"}
+	out := [][]Action{}
+	for i := 0; i < n/4+1; i++ {
+		st := &symtab{}
+		a := newAct("", []string{"", "pkg"}[r.Intn(2)])
+		for k := 0; k < r.Intn(4); k++ {
+			a.Headers = append(a.Headers, texts[r.Intn(len(texts))])
+		}
+		for k := 0; k < r.Intn(4); k++ {
+			a.Comments = append(a.Comments, texts[r.Intn(len(texts))])
+		}
+		a.Canonical = canons[r.Intn(len(canons))]
+		h := []Action{a}
+		if r.Intn(2) == 0 {
+			h = append(h, Action{A: "Add", Tree: varQ("fmt", st.sym("fmt"))})
+		}
+		if r.Intn(2) == 0 {
+			h = append(h, Action{A: "Add", Tree: stm(CommentNode("a body comment"))})
+		}
+		h = append(h, Action{A: "Add", Tree: stm(kwn("var"), idn("v"), opn("="), lit("1"))}, Action{A: "Render"})
 		out = append(out, h)
 	}
 	return out
